@@ -5,6 +5,7 @@ package henv
 
 import (
 	"fmt"
+	"math"
 	"reflect"
 	"sort"
 	"strings"
@@ -115,6 +116,10 @@ func (e Env) OpAny(a, b interface{}) interface{} {
 	e.L.Add("OpAny(%s,%s)", Norm(a), Norm(b))
 	return Norm(a) + "&" + Norm(b)
 }
+func (e Env) OpAnyEq(a, b interface{}) bool {
+	e.L.Add("OpAnyEq(%s,%s)", Norm(a), Norm(b))
+	return Norm(a) != Norm(b)
+}
 func (e Env) OpIn(a, b string) bool          { e.L.Add("OpIn(%q,%q)", a, b); return strings.Contains(b, a) }
 func (e Env) OpAnd(a, b int) bool            { e.L.Add("OpAnd(%d,%d)", a, b); return a != 0 && b != 0 }
 func (e Env) OpStr(a, b fmt.Stringer) string { e.L.Add("OpStr"); return a.String() + "~" + b.String() }
@@ -147,7 +152,7 @@ var Domains = map[string]Domain{
 	"T":  {c("a"), c("b")},
 	"A":  {c([]int{1, 2, 3}), c([]int{}), c([]int{1}), c([]int{3, 1, 0})},
 	"A2": {c([]int{2, 0}), c([]int(nil))},
-	"FA": {c([]float64{0.5, 1.5, 2, 7.5}), c([]float64{})},
+	"FA": {c([]float64{0.5, 1.5, 2, 7.5}), c([]float64{}), c([]float64{0.5, math.NaN(), 0.25})},
 	"NN": {c([][]int{{1, 2, 3}, {0}, {}, {2, 2}}), c([][]int{})},
 	"SA": {c([]string{"a", "b"}), c([]string{}), c([]string{"ab"})},
 	"AA": {c([]interface{}{1, "a", nil}), c([]interface{}{}), c([]interface{}{2.5, true})},
